@@ -62,6 +62,7 @@ type accessRow struct {
 	Line  int        `json:"line"`
 	Locks []heldLock `json:"locks"`
 	InGo  bool       `json:"ingo"`
+	pos   token.Pos
 }
 
 type callRow struct {
@@ -294,7 +295,7 @@ func (w *accessWalker) exprs(n ast.Node, held lockSet) {
 			}
 		case *ast.SelectorExpr:
 			if name, ok := fieldOf(w.pi, v); ok && w.tracked[name] {
-				*w.rows = append(*w.rows, accessRow{name, w.writes[v], w.fn, w.rel, fset.Position(v.Pos()).Line, held.sorted(), w.inGo})
+				*w.rows = append(*w.rows, accessRow{name, w.writes[v], w.fn, w.rel, fset.Position(v.Pos()).Line, held.sorted(), w.inGo, v.Pos()})
 			}
 		}
 		return true
@@ -540,6 +541,7 @@ func extractAccessTable() {
 	for _, r := range rows {
 		seenField[r.Field] = true
 	}
+	unguarded := unguardedAccesses(rows, callbacks)
 	inferred := inferCallerHolds(calls, funcs)
 	// keep the call rows whose callee touches tracked state directly, or reaches (through at most two
 	// intermediate functions) something that does: enough to justify "helper of a helper" lock claims
@@ -613,6 +615,11 @@ func extractAccessTable() {
 			fmt.Printf("extract: C18 %s unlocks %s without having locked it\n", a.Fn, a.Lock)
 		}
 	}
+	var ugs []string
+	for _, u := range unguarded {
+		ugs = append(ugs, fmt.Sprintf("  ⟨%s, %s, %d⟩", in.ref(u.Field), in.ref(u.Fn), u.Line))
+		fmt.Printf("extract: C18 %s is accessed in %s (%s:%d) where the query's verdict may be an error\n", u.Field, u.Fn, u.File, u.Line)
+	}
 	var infs []string
 	var infNames []string
 	for fn := range inferred {
@@ -647,6 +654,8 @@ func extractAccessTable() {
 	l.sb.WriteString("/-- helper `fn` is only ever called with `lock` held (exclusively if `excl`) -/\nstructure Holds where\n  fn : Nat\n  lock : Nat\n  excl : Bool\n  deriving Repr\n\n")
 	l.def("foreignUnlocks", "List Holds", "[\n"+strings.Join(rls, ",\n")+"]", "functions that unlock a mutex they did not lock themselves (Unlock / RUnlock with nothing lexically held): the lock regions of their callers are not what they look like")
 	l.def("inferredHolds", "List Holds", "[\n"+strings.Join(infs, ",\n")+"]", "computed by the extractor: unexported functions, never used as a value, ALL of whose call sites (none of them `go`/`defer`) lie in a region where the lock is held, lexically or because the caller is such a helper itself; re-checked against the call rows by C18_caller_holds")
+	l.sb.WriteString("structure RowRef where\n  field : Nat\n  fn : Nat\n  line : Nat\n  deriving Repr\n\n")
+	l.def("unguardedAccesses", "List RowRef", "[\n"+strings.Join(ugs, ",\n")+"]", "accesses, outside the callbacks, to state a work-manager callback writes that are NOT confined to the success verdict of the query: not before the query is issued, and not after a `if err != nil { return }` on the verdict received from the query's error channel (see extract/callbacks.go)")
 	l.def("callbacks", "List Callback", "[\n"+strings.Join(cbs, ",\n")+"]", "per-response callbacks registered with the work manager; their receiver fields / captured variables are tracked fields")
 	l.def("fields", "List Nat", "["+strings.Join(fields, ", ")+"]", "the tracked fields")
 	facts["accesstable"] = map[string]any{"rows": rows, "calls": calls, "callbacks": callbacks}
